@@ -206,6 +206,11 @@ theorem finish_over (cfg : Cfg) (s : St) (r : Result) : over (finish cfg s r).ph
   · exact Or.inr h
   · exact Or.inl h
 
+theorem finishBody_over (cfg : Cfg) (s : St) (r : Result) : over (finishBody cfg s r).phase := by
+  rcases finishBody_phase cfg s r with h | h
+  · exact Or.inr h
+  · exact Or.inl h
+
 theorem act_over (cfg : Cfg) (s : St) (a : Act) (hg : guard cfg s a = true) (ho : over s.phase) :
     over (apply cfg s a).phase := by
   have hpre : s.phase.preConn = false := by rcases ho with h | h <;> simp [h]
